@@ -5,7 +5,12 @@ EXTENDS Balance, TraceKit
 VARIABLE l
 All(s, P(_)) == \A k \in DOMAIN s : P(s[k])
 Bins(e) == 0..(Len(e.case.table) - 1)
-Decidable(e) == ~e.case.o.mad \/ MadDecidable(e.case.table, e.case.px, e.case.o)
+\* `cooler balance --ignore-dist D`: the number of ignored diagonals is the MAXIMUM of --ignore-diags and ceil(D / bin size)
+EffO(e) == IF "ignore_dist" \in DOMAIN e.case
+           THEN LET d == (e.case.ignore_dist + e.case.binsize - 1) \div e.case.binsize
+                IN [e.case.o EXCEPT !.diags = IF d > @ THEN d ELSE @]
+           ELSE e.case.o
+Decidable(e) == ~e.case.o.mad \/ MadDecidable(e.case.table, e.case.px, EffO(e))
 
 (* bl.balance: balance_cooler / `cooler balance` on integer data *)
 ScopeOf(t, o, i) == IF o.mode = "cis" THEN ChromBins(t, ChromOf(t, i)) ELSE AllBins(t)
@@ -16,7 +21,7 @@ ScopeOf(t, o, i) == IF o.mode = "cis" THEN ChromBins(t, ChromOf(t, i)) ELSE AllB
 TransWitness(e) ==
   LET t == e.case.table
       px == e.case.px
-      o == e.case.o
+      o == EffO(e)
       D == BinsWithData(t, px, o, AllBins(t))
       T == LiveMarg(t, px, o, CHOOSE i \in D : TRUE)
       want == 2 ^ (8 - SqrtExp(T))
@@ -30,7 +35,7 @@ TransWitness(e) ==
 BalanceClauses(e) ==
   LET t == e.case.table
       px == e.case.px
-      o == e.case.o
+      o == EffO(e)
   IN
   IF ~Decidable(e) THEN << <<"notDecided", TRUE>> >>            \* MAD-max outside the decidable sub-family
   ELSE
@@ -61,7 +66,7 @@ MargVec(t, px, o) == [i \in 1..Len(t) |-> Marg(t, px, o, i - 1)]
 PipelineClauses(e) ==
   LET t == e.case.table
       px == e.case.px
-      o == e.case.o
+      o == EffO(e)
       nnz == Len(px)
       clipped == [k \in DOMAIN e.obs.keys |-> Clip(e.obs.keys[k], nnz)]
   IN
